@@ -8,7 +8,7 @@
    range visits its keys in the order they have in [ord]. Not modelled: Similarity/CloneType,
    ids, final order of groups. *)
 From Coq Require Import NArith ZArith QArith List Bool.
-From PV Require Import Gen.CloneConst Clone.GroupSpec Clone.GroupCommon.
+From PV Require Import Gen.GroupConst Clone.GroupSpec Clone.GroupCommon.
 Import ListNotations.
 
 (* adj[a][b] is set (lines 56-59): some pair joins a and b with similarity >= threshold *)
